@@ -13,6 +13,14 @@ from fractions import Fraction
 from harness import core
 
 NAMES = ["A", "B", "C", "D", "E", "F", "G", "H"]
+# naming schemes for the random stream: plain letters, names that are substrings / prefixes of each other,
+# names with characters that matter to printing ("{", ",", space) and non-ASCII
+NAME_POOLS = [
+    NAMES,
+    ["cpu", "cpu-avx512", "gpu", "gpu-fp64", "a", "ab", "abc", "b"],
+    ["x", "xx", "xxx", "x x", "x,y", "{x}", "ü", "X"],
+    ["p0", "p1", "p10", "p11", "p2", "p", "0", "1"],
+]
 TOL = 1e-9
 
 
@@ -139,6 +147,56 @@ def check_case(ctx, drv, report, sm, ps, origin):
             ctx.notes.append(f"model != definition on {case} for {md}")
 
 
+def history(ctx, report, sm, rng):
+    """The metrics are functions of the table: a query must not change the table, and the answer must not
+    depend on which queries were made before on the same dict object."""
+    import collections as _c
+
+    def build():
+        d = _c.defaultdict(int) if rng.random() < 0.5 else {}
+        for k, c in sm:
+            d[frozenset(k)] = d.get(frozenset(k), 0) + c
+        return d
+
+    fresh = build()
+    plats = sorted(set(p for k in fresh for p in k))
+    queries = [("coverage", lambda d: report.coverage(d)), ("average_coverage", lambda d: report.average_coverage(d)),
+               ("divergence", lambda d: report.divergence(d)), ("extract_platforms", lambda d: sorted(report.extract_platforms(d)))]
+    if len(plats) >= 2:
+        a, b = plats[0], plats[-1]
+        queries.append((f"distance({a},{b})", lambda d: report.distance(d, a, b)))
+    if rng.random() < 0.3:
+        import io
+        queries.append(("summary", lambda d: (report.summary(d, io.StringIO()), None)[1]))
+
+    def same(x, y):
+        if isinstance(x, float) and isinstance(y, float):
+            return (math.isnan(x) and math.isnan(y)) or x == y
+        return x == y
+
+    try:
+        base = {name: q(build()) for name, q in queries}  # each on a fresh table
+        shared = build()
+        snapshot = dict(shared)
+        order = queries[:]
+        rng.shuffle(order)
+        order = order + order[:2]
+        for name, q in order:
+            got = q(shared)
+            ctx.count(key="history")
+            if not same(got, base[name]):
+                ctx.violation(f"{name} answers {got!r} after earlier queries on the same table but {base[name]!r} on a fresh one",
+                              {"setmap": [[list(k), c] for k, c in sm], "queries": [n for n, _ in order]})
+                return
+            if dict(shared) != snapshot:
+                ctx.violation(f"query {name} modified the caller's table",
+                              {"setmap": [[list(k), c] for k, c in sm], "queries": [n for n, _ in order]})
+                return
+    except Exception as e:  # noqa
+        if sum(c for _, c in sm) > 0:
+            ctx.violation(f"query sequence raises {type(e).__name__}: {e}", {"setmap": [[list(k), c] for k, c in sm]})
+
+
 def metamorphic(ctx, report, sm, rng):
     """rename / reorder / scale invariance on the implementation itself."""
     setmap = {}
@@ -199,7 +257,8 @@ def tables_exhaustive(nplat, counts):
 
 def random_table(rng):
     nplat = rng.randint(0, 8)
-    names = NAMES[:nplat]
+    pool = rng.choice(NAME_POOLS)
+    names = rng.sample(pool, nplat)
     n = rng.randint(0, 12)
     sm = []
     for _ in range(n):
@@ -242,13 +301,15 @@ def run(ctx, drv):
                 check_case(ctx, drv, report, sm, ps, f"exhaustive{nplat}")
     ctx.exhaustive = True
     # random
-    for i in range(ctx.n(1500, 30000)):
+    for i in range(ctx.n(4000, 30000)):
         sm = random_table(ctx.rng)
         plats = sorted(set(p for k, _ in sm for p in k))
         ps = [p for p in plats if ctx.rng.random() < 0.5] if ctx.rng.random() < 0.7 else []
         check_case(ctx, drv, report, sm, ps, "random")
         if i % 3 == 0:
             metamorphic(ctx, report, sm, ctx.rng)
+        if i % 4 == 1:
+            history(ctx, report, sm, ctx.rng)
 
 
 def search(ctx, drv):
